@@ -6,7 +6,8 @@
 (* checked on the generated behaviours themselves.                                    *)
 EXTENDS GraphSLAM
 CONSTANTS Templates,      \* set of [name, nv, ne]
-          MaxIterSet, TolSet
+          MaxIterSet, TolSet,
+          Edits           \* whether the behaviours contain the user's SetPose / SetMeas edits
 VARIABLES tmpl, arg, nopt
 svars == <<vars, tmpl, arg, nopt>>
 
@@ -30,7 +31,14 @@ SOpt == \E m \in MaxIterSet : \E ff \in BOOLEAN, vb \in BOOLEAN : \E tl \in TolS
             /\ nopt' = nopt + 1 /\ UNCHANGED tmpl
 SReload == /\ ReloadEffect(FALSE, [i \in 1..tmpl.nv |-> verts[i].pose + 100], <<>>) /\ obs' = [op |-> "Reload", raised |-> FALSE]
            /\ arg' = [NoArg EXCEPT !.op = "Reload"] /\ UNCHANGED <<tmpl, nopt>>
-SNext == SQuery \/ SSetFixed \/ SOpt \/ SReload
+SSetPose == \E i \in 1..tmpl.nv :
+            /\ SetPoseEffect(i, verts[i].pose + 10000) /\ obs' = [op |-> "SetPose"]
+            /\ arg' = [NoArg EXCEPT !.op = "SetPose", !.idx = i] /\ UNCHANGED <<tmpl, nopt>>
+\* (the abstract scenario graph carries no edges: the target edge is an index the harness resolves modulo the real edge list)
+SSetMeas == \E n \in 1..tmpl.ne :
+            /\ status = "ready" /\ UNCHANGED <<verts, edges, status>> /\ obs' = [op |-> "SetMeas"]
+            /\ arg' = [NoArg EXCEPT !.op = "SetMeas", !.idx = n] /\ UNCHANGED <<tmpl, nopt>>
+SNext == SQuery \/ SSetFixed \/ SOpt \/ SReload \/ (Edits /\ (SSetPose \/ SSetMeas))
 SSpec == SInit /\ [][SNext]_svars
-FixedFrozenS == [][\A i \in DOMAIN verts : verts'[i].fixed => verts'[i].pose = verts[i].pose]_svars
+FixedFrozenS == [][obs'.op # "SetPose" => \A i \in DOMAIN verts : verts'[i].fixed => verts'[i].pose = verts[i].pose]_svars
 =============================================================================
